@@ -43,6 +43,19 @@ theorem with_context_sees (s : Situation α) (h : s.withCtx = true) :
   unfold withContextSees orElse
   rfl
 
+/-- What "the current local variables" are: the dict built by `dump_local_context` gives every name the value of its
+    *innermost* declaration among the enclosing scopes — an inner loop variable / macro parameter / `with` binding hides
+    an outer `set`; and when the innermost Python local is still `missing`, the name counts as having no local value
+    (the lookup then falls through to the context, not to an outer scope's local). -/
+theorem locals_are_innermost (frames : List (Frame α)) (n : Name) :
+    Locals.val (dumpLocals frames) n = (findDecl frames n).getD none := by
+  rw [dumpLocals, Locals.val_dedupFirst, findDecl_flatten]
+
+example : Locals.val (dumpLocals [[("i", some 2), ("y", none)], [("x", some 1), ("i", some 0), ("y", some 7)]]) "i" = some 2 ∧
+    Locals.val (dumpLocals [[("i", some 2), ("y", none)], [("x", some 1), ("i", some 0), ("y", some 7)]]) "y" = none ∧
+    Locals.val (dumpLocals [[("i", some 2), ("y", none)], [("x", some 1), ("i", some 0), ("y", some 7)]]) "x" = some 1 := by
+  decide
+
 /-- include: with context as above, without context exactly the target template's own globals -/
 theorem include_ctx (s : Situation α) (hk : s.kind = .inc) :
     ∃ c, targetCtx s = some c ∧
